@@ -317,4 +317,23 @@ theorem cbValid_implies_accepted (o : Oracle) (p : J) : cbValid o p = true → (
   simp only [Bool.and_eq_true, decide_eq_true_eq] at h ⊢
   exact ⟨⟨h.1.1.1.1.1.2, h.1.1.1.1.2⟩, h.1.1.1.2⟩
 
+/-! ## HTTPServer: the tracer of a new mux instance is never nil
+
+`muxInstance.serveHTTP` and `mux.close` dereference `inst.tracer` (implicit panic sites). The selection in
+`mux.reload` is translated (`tracerNonNilIR_mux`). -/
+
+/-- whatever the tracing sections are (equal or not), whether `tracing.New` succeeds or fails — validation
+accepts sections it rejects, e.g. a negative `sampleRate` — and even if the previous tracer were nil: the
+instance gets a non-nil tracer (`tracing.New` error ⇒ `NoopTracer`). -/
+theorem tracer_never_nil (sameSpec newOK oldNonNil : Bool) : tracerNonNilIR_mux sameSpec newOK oldNonNil = true := by
+  cases sameSpec <;> cases newOK <;> cases oldNonNil <;> rfl
+
+theorem tracing_new_nil_on_error : tracingNewNilOnError = true := by decide
+
+/-- the seeded selection (`tracer := oldInst.tracer; if spec changed { tracer, err = tracing.New(…) }`) as the
+translator renders it: nil when the section changed and `tracing.New` fails -/
+def tracerSeeded_mux (sameSpec newOK oldNonNil : Bool) : Bool := if !sameSpec then newOK else oldNonNil
+
+theorem tracer_seeded_can_be_nil : ∃ a b c, tracerSeeded_mux a b c = false := ⟨false, false, true, rfl⟩
+
 end EgVerif.SpecGuards
